@@ -109,9 +109,18 @@ def campaign(res, pid, prog, variants, nseeds, drivers, workers_note="", extra_f
     first_mismatch = None
     samples = []
     harness_errors = 0
+    # wall-clock budget of the campaign (a change that makes every controlled run crawl must not turn a
+    # check of seconds into one of hours): the runs not started are reported, never silently dropped
+    import time as _time
+    budget = float(os.environ.get("VERIF_CAMPAIGN_BUDGET", "180" if res.tier == "quick" else "900"))
+    t_start = _time.time()
     for i, (args, seed, rp) in enumerate(runs):
+        if _time.time() - t_start > budget:
+            res.notes["campaign_budget_exhausted"] = "%s: %d of %d runs done in %.0f s (normal: all runs in well under the budget)" % (prog, i, len(runs), budget)
+            runs = runs[:i]
+            break
         den = [2, 3, 4, 8][i % 4]
-        r = run_once(exe, args, seed, work, "r%d" % i, replay=rp, switch_den=den)
+        r = run_once(exe, args, seed, work, "r%d" % i, replay=rp, switch_den=den, timeout=60)
         kind, text = judge(r)
         if kind == "harness":
             harness_errors += 1
@@ -167,13 +176,20 @@ def search_more(res, pid, prog, variants, nseeds):
     shutil.rmtree(work, ignore_errors=True)
     rng = common.Splitmix(res.seed * 77 + 3)
     nseeds = max(nseeds, 1500)
+    import time as _time
+    budget = float(os.environ.get("VERIF_SEARCH_BUDGET", "240" if res.tier == "quick" else "900"))
+    t_start = _time.time()
     for i in range(nseeds):
+        if _time.time() - t_start > budget:
+            res.notes["search_runs"] = i
+            res.notes["search_budget_exhausted"] = "%d of %d search runs in %.0f s" % (i, nseeds, budget)
+            return
         args = list(variants[i % len(variants)])
         seed = rng.below(1 << 30) + 1
         dem = None
         if i % 2 == 1:
             dem = 5 + rng.below(1000)
-        r = run_once(exe, args, seed, work, "s%d" % (i % 50), switch_den=[2, 8, 3, 8][i % 4], demote_at=dem)
+        r = run_once(exe, args, seed, work, "s%d" % (i % 50), switch_den=[2, 8, 3, 8][i % 4], demote_at=dem, timeout=60)
         kind, text = judge(r)
         if kind == "violation":
             d = save_replay(pid, r, [prog] + args, seed)
